@@ -788,7 +788,7 @@ class FnTranslator:
 
 
 HEADERS = {
-    "Q": "From Coq Require Import ZArith QArith Qminmax Qabs Qround List Bool String.\n"
+    "Q": "From Coq Require Import ZArith QArith Qminmax Qabs List Bool String.\n"
          "From ACN Require Import Base.Num.\nImport ListNotations.\nOpen Scope string_scope.\nOpen Scope Q_scope.\n",
     "R": "From Coq Require Import ZArith Reals List Bool String.\n"
          "From ACN Require Import Base.Num Base.NumR.\nImport ListNotations.\nOpen Scope string_scope.\nOpen Scope R_scope.\n",
@@ -808,7 +808,9 @@ def translate_group(repo, specs, domain):
             info["line"], info["end_line"], text))
         infos.append(info)
     extra = ""
-    if domain == "Q":
+    if domain == "Q":       # per-anchor extra imports for the Q file (additive; C15): q_coq_require / q_require
+        for r in sorted({sp["q_coq_require"] for sp in specs if sp.get("q_coq_require")}):
+            extra += "From Coq Require Import %s.\n" % r
         for r in sorted({sp["q_require"] for sp in specs if sp.get("q_require")}):
             extra += "From ACN Require Import %s.\n" % r
     return HEADERS[domain] + extra + "\n" + "\n".join(texts), infos
